@@ -39,7 +39,10 @@ def module_src(modname):
 
 
 def import_module(modname):
-    m = importlib.import_module(modname)
+    import warnings
+    with warnings.catch_warnings():
+        warnings.simplefilter('ignore')
+        m = importlib.import_module(modname)
     f = getattr(m, '__file__', '') or ''
     if not os.path.realpath(f).startswith(os.path.realpath(REPO_ROOT)):
         raise CheckerError(f'{modname} imported from {f}, not from {REPO_ROOT}')
